@@ -315,10 +315,12 @@ def reset_process_state() -> None:
     except Exception:  # pragma: no cover
         pass
     try:
-        from pyxel.util.image import load_cropped_and_aligned_image
+        import pyxel.util.image as _img
 
-        if hasattr(load_cropped_and_aligned_image, "cache_clear"):
-            load_cropped_and_aligned_image.cache_clear()
+        for _name in ("load_cropped_and_aligned_image", "_load_cropped_and_aligned_image"):
+            _fn = getattr(_img, _name, None)
+            if _fn is not None and hasattr(_fn, "cache_clear"):
+                _fn.cache_clear()
     except Exception:
         pass
     logging.getLogger("dask").setLevel(logging.WARNING)
